@@ -65,7 +65,11 @@ void SignalHandlerFunc(int signo)
     const auto &old_handler = this_signal_ctx.old_handler;
 #ifdef  TBOX_USE_SIGACTION
     if (old_handler.sa_flags & SA_SIGINFO) {
-        if (old_handler.sa_sigaction)
+        //! SIG_DFL 与 SIG_IGN 也可能是带着 SA_SIGINFO 标志安装的，它们不是可调用的函数
+        const void *old_action = reinterpret_cast<const void*>(old_handler.sa_sigaction);
+        if (reinterpret_cast<const void*>(SIG_ERR) != old_action &&
+            reinterpret_cast<const void*>(SIG_IGN) != old_action &&
+            reinterpret_cast<const void*>(SIG_DFL) != old_action)
             old_handler.sa_sigaction(signo, siginfo, context);
     } else {
         if (SIG_ERR != old_handler.sa_handler &&
